@@ -362,13 +362,14 @@ Qed.
 
 Lemma TblInv_snoc h b : btable b = [] -> TblInv h -> TblInv (h ++ [b]).
 Proof.
-  intros Hb [Hwf Hsym Hnm]. split.
+  intros Hb [Hwf Hsym Hnm Hlp]. split.
   - intros o bo Ho. apply nth_error_snoc_cases in Ho as [Ho|[_ ->]]; [apply (Hwf o bo Ho)|].
     unfold box_wf. rewrite Hb. apply tbl_wf_nil.
   - intros x y. rewrite !lget_snoc by exact Hb. apply Hsym.
   - intros a x kd Hp. rewrite lget_snoc in Hp by exact Hb.
     destruct (Hnm a x kd Hp) as (bx & Hbx & Hl). exists bx. split; [|exact Hl].
     apply nth_error_snoc_old. exact Hbx.
+  - intros a x Hp. rewrite lget_snoc in Hp by exact Hb. apply Hlp. exact Hp.
 Qed.
 
 (** [Rc::new]: a fresh allocation with one strong handle in a free register.
